@@ -20,6 +20,7 @@ import vlib
 
 KF_CONST_STR = "py-const-string-result-with-defaults"
 KF_LUA_CHARP = "lua-char-pointer-argument"
+KF_C_VECTOR = "c-only-vector-argument"
 FINDING_LIBS = [
     # (key, library, header name, header text, options, file expected not to compile)
     (KF_LUA_CHARP, {"library": "fl1", "cxx_header": "fl1.hpp", "declarations": [{"decl": "int cstr(const char *t)"}]},
@@ -27,6 +28,9 @@ FINDING_LIBS = [
     (KF_CONST_STR, {"library": "fl2", "cxx_header": "fl2.hpp", "declarations": [{"decl": "const std::string cs(int a = 1)"}]},
      "fl2.hpp", "#pragma once\n#include <string>\nconst std::string cs(int a = 1);\n",
      dict(wrap_c=False, wrap_fortran=False, wrap_python=True, wrap_lua=False), "pyfl2module.cpp"),
+    (KF_C_VECTOR, {"library": "fl3", "cxx_header": "fl3.hpp", "declarations": [{"decl": "void ids(std::vector<int> &v +intent(out))"}]},
+     "fl3.hpp", "#pragma once\n#include <vector>\nvoid ids(std::vector<int> &v);\n",
+     dict(wrap_c=True, wrap_fortran=False, wrap_python=False, wrap_lua=False), "wrapfl3.cpp"),
 ]
 
 GEN = {
@@ -48,8 +52,19 @@ GEN = {
         {"decl": "namespace inner", "declarations": [{"decl": "int deep(int x)"}]},
     ],
 }
+# a nested namespace (its own Fortran module and C file) whose functions need helpers shared with the C side
+GENNS = {
+    "library": "nsl", "cxx_header": "nsl.hpp", "options": {"wrap_lua": False, "wrap_python": False},
+    "declarations": [
+        {"decl": "int base(int x)"},
+        {"decl": "namespace inner", "declarations": [{"decl": "const std::string &tag()"}, {"decl": "void ids(std::vector<int> &v +intent(out))"},
+                                                      {"decl": "int *arr(int n) +dimension(n)+deref(allocatable)"}]},
+    ],
+}
+GENNS_HPP = "#pragma once\n#include <string>\n#include <vector>\nint base(int x);\nnamespace inner { const std::string &tag(); void ids(std::vector<int> &v); int *arr(int n); }\n"
 GEN_HPP = r'''#pragma once
 #include <string>
+#include <vector>
 #include <cstddef>
 int scal(short a, long b, size_t d, float e, double f, bool g);
 void ptrs(int *a, const double *b, int nb, long *c);
@@ -170,6 +185,10 @@ def build_and_compile(ctx, tag, lib, header_name, header_text, opts):
     if rc != 0:
         return [{"file": "(shroud)", "message": out[-700:]}], {}, yp
     fails, done = compilecheck.compile_dir(od, [d])
+    if not fails:
+        lf, n = compilecheck.link_check(od, [d])
+        fails += lf
+        done["linked"] = n
     return fails, done, yp
 
 
@@ -242,6 +261,10 @@ def run(ctx):
         if rc != 0:
             return name, [{"file": "(shroud)", "message": out[-600:]}], {}
         fails, done = compilecheck.compile_dir(od, dirs)
+        if not fails:
+            lf, n = compilecheck.link_check(od, dirs)
+            fails += lf
+            done["linked"] = n
         return name, fails, done
     tot = {}
     with ThreadPoolExecutor(vlib.NCPU) as ex:
@@ -253,11 +276,12 @@ def run(ctx):
             for f in fails:
                 if "redefinition of" in f["message"] and "/regression/run/" in f["message"]:
                     continue      # the corpus library header has no include guard and is included twice: not Shroud's text
-                ctx.violation("failing-input", {"what": "a generated file does not compile", "input": {"corpus": name, "file": f["file"]},
+                ctx.violation("failing-input", {"what": "a generated file does not compile or link", "input": {"corpus": name, "file": f["file"]},
                                                 "compiler_output": f["message"]})
             ctx.traces += 1
     jobs = [("cxx_%d" % i, GEN, "cmp.hpp", GEN_HPP, o) for i, o in enumerate(gen_matrix(quick, ctx.rng))] + \
-           [("c_%d" % i, GENC, "cmpc.h", GENC_H, o) for i, o in enumerate(gen_matrix(quick, ctx.rng)[: (4 if quick else 1000)])]
+           [("c_%d" % i, GENC, "cmpc.h", GENC_H, o) for i, o in enumerate(gen_matrix(quick, ctx.rng)[: (4 if quick else 1000)])] + \
+           [("ns_%d" % i, GENNS, "nsl.hpp", GENNS_HPP, o) for i, o in enumerate([dict(), dict(F_CFI=True), dict(debug=True, F_flatten_namespace=True)])]
 
     def two(j):
         return j, build_and_compile(ctx, *j)
@@ -269,7 +293,7 @@ def run(ctx):
                 tot[k] = tot.get(k, 0) + v
             ctx.hist("matrix:" + j[0].split("_")[0])
             for f in fails:
-                ctx.violation("failing-input", {"what": "a generated file does not compile", "input": {"library_yaml": open(yp).read(), "options": j[4], "file": f["file"]},
+                ctx.violation("failing-input", {"what": "a generated file does not compile or link", "input": {"library_yaml": open(yp).read(), "options": j[4], "file": f["file"]},
                                                 "compiler_output": f["message"]})
     # fixed libraries exhibiting the recorded findings
     for (key, lib, hn, ht, opts, badfile) in FINDING_LIBS:
@@ -279,7 +303,7 @@ def run(ctx):
             if f["file"] == badfile and ctx.is_known(key):
                 ctx.known_finding(key, "")
             else:
-                ctx.violation("failing-input", {"what": "a generated file does not compile", "input": {"library_yaml": open(yp).read(), "file": f["file"]},
+                ctx.violation("failing-input", {"what": "a generated file does not compile or link", "input": {"library_yaml": open(yp).read(), "file": f["file"]},
                                                 "compiler_output": f["message"]})
     ctx.extra["files_compiled"] = tot
 
